@@ -79,6 +79,9 @@ func (p *Packet) decodeEthernet() error {
 	}
 
 	if d.EtherType == EtherTypeIEEE8021Q {
+		if len(p.data) < 18 {
+			return errShortEthernetHeaderLength
+		}
 		vlan := int(p.data[14])<<8 | int(p.data[15])
 		p.data[12], p.data[13] = p.data[16], p.data[17]
 		p.data = append(p.data[:14], p.data[18:]...)
